@@ -88,6 +88,9 @@ pub fn c31(out: &mut Out, ex: &mut Exec, seed: u64, thorough: bool) {
         v.push("sim rawmem 1000 8000/ffff".into()); v.push("sim rawmem 0181 1000/ffff".into());
         v.push(crate::c34::timer_line(lo, hi, true, 0x81, 4, true, rng.below(1 << 20), 500));
         if !seeded { v.push("sim known".into()); }
+        // a loaded block with reserved (.blkw) words: their data must stay what the initialisation strategy gave
+        v.push(format!("sim load 3100:_,{:04x},_,_,{:04x},_", rng.u16(), rng.u16()));
+        v.push("sim hostread 3100 1 0 0 0".into()); v.push("sim hostread 3103 1 0 0 0".into());
         for _ in 0..30 + rng.below(60) { v.push("sim step".into()); }
         v.push("sim run 20000".into()); v.push("sim memhash".into());
         // run 1 (recorded, compared with the model), run 2 in a fresh interpreter (compared with run 1)
